@@ -223,6 +223,11 @@ class Gen:
             t, ty = self.push1(stk, env, depth)
         else:
             t, _ = self.sub(stk, env, depth)
+        if stk and self.r.random() < 0.15:
+            # `[ … ]: the capture replaces the k values below it
+            k = self.r.randint(1, min(2, len(stk)))
+            self.note("backtick")
+            return "`" * k + ("[" + t + "]" if self.r.random() < 0.7 else "[]"), stk[:-k] + ["q"], env
         return "[" + t + "]", stk + ["q"], env
 
     def g_assert(self, stk, env, depth):
